@@ -26,7 +26,7 @@ ANCHORS = [
     "stereomolgraph.experimental:generate_stereoisomers",
 ]
 REQUIRED_ANCHORS = ANCHORS
-REQUIRED = ["family_i", "family_ii_tetrahedral", "family_ii_planar", "family_iii", "reverse_pairs"]
+REQUIRED = ["family_i", "family_ii_tetrahedral", "family_ii_planar", "family_iii", "reverse_pairs", "family_iii_only_ts_differs"]
 
 
 def signature(pg):
@@ -147,7 +147,41 @@ def gen_cases(ctx):
             cls = rng.choice(["CondensedReactionGraph", "StereoCondensedReactionGraph"])
             a = gen.random_pg(rng, cls, n_range=(2, 10), alphabet=rng.choice([gen.TINY, gen.SMALL, gen.WIDE]), p_stereo=0.4, p_role=0.5)
             how = rng.random()
-            if how < 0.35:
+            if (i // 3) % 10 == 4:
+                # degenerate exchange reactions: k copies of a diatomic A-B exchanging partners in cycles (a four-centre
+                # exchange with spectators against a six-centre cyclic one ...): reactants and products are the same
+                # molecules in both reactions, only the transition structures differ; no fleeting bonds
+                k = rng.randint(3, 5)
+                za, zb = rng.sample([1, 9, 17, 35, 8, 6, 7], 2)
+
+                def exchange(cycles):
+                    g = sem.pg_empty(cls)
+                    for m_ in range(k):
+                        g["atoms"][2 * m_] = {"atom_type": za}
+                        g["atoms"][2 * m_ + 1] = {"atom_type": zb}
+                    for cyc in cycles:
+                        if len(cyc) == 1:
+                            g["bonds"][frozenset((2 * cyc[0], 2 * cyc[0] + 1))] = {}
+                            continue
+                        for u, v in zip(cyc, cyc[1:] + cyc[:1]):
+                            g["bonds"][frozenset((2 * u, 2 * u + 1))] = {"reaction": "BROKEN"}
+                            g["bonds"][frozenset((2 * u, 2 * v + 1))] = {"reaction": "FORMED"}
+                    return g
+
+                def cycles_of(sizes):
+                    mols = list(range(k))
+                    rng.shuffle(mols)
+                    out, p_ = [], 0
+                    for sz in sizes:
+                        out.append(mols[p_:p_ + sz])
+                        p_ += sz
+                    return out
+
+                parts = [p_ for p_ in ([2] + [1] * (k - 2), [3] + [1] * (k - 3), [k], [2, 2] + [1] * (k - 4) if k >= 4 else None, [3, 2] if k == 5 else None) if p_]
+                pa, pb = rng.sample(parts, 2)
+                a, b, mut = exchange(cycles_of(pa)), exchange(cycles_of(pb)), "exchange-cycles"
+                b = sem.pg_relabel(b, gen.random_bijection(rng, b))
+            elif how < 0.35:
                 b, mut = sem.pg_reverse(a), "reverse"
             else:
                 r = gen.mutate(rng, sem.pg_relabel(a, gen.random_bijection(rng, a)), rng.choice(["role", "role", "element", "move_bond", "swap_roles"]))
@@ -157,6 +191,8 @@ def gen_cases(ctx):
             diff = [w for w in ("reactant", "product", "ts") if signature(sem.pg_reactant(a, w)) != signature(sem.pg_reactant(b, w))]
             if not diff:
                 continue
+            if diff == ["ts"]:
+                mut += "+only-ts-differs"
             yield {"fam": "iii", "cls": cls, "mut": mut, "diff": diff, "a": pg_to_json(a), "b": pg_to_json(b), "bseed": rng.randrange(1 << 30)}
 
 
@@ -185,6 +221,8 @@ def check_case(ctx, case):
         sub = case["unit"]
     else:
         ctx.count("family_iii")
+        if case["diff"] == ["ts"]:
+            ctx.count("family_iii_only_ts_differs")
         if case["mut"] in ("reverse", "swap_roles"):
             ctx.count("reverse_pairs")
         sub = "reverse" if case["mut"] in ("reverse", "swap_roles") else "+".join(case["diff"])
